@@ -203,7 +203,7 @@ def run(tier: str, seed: int, t0: float) -> int:
     jobs = [(b, "G+T")]
     # ---- T random on bundled schemas and variants
     n_docs = 30 if not thorough else 300
-    for name in schemas.BUNDLED_PLUS + ["s1", "s3"]:
+    for name in schemas.BUNDLED_PLUS + ["s1", "s3", "bm"]:
         sch, js, pairs = universe.random_docs(name, n_docs, rng)
         b = trace.Batch(js)
         slices = []
